@@ -456,13 +456,13 @@ func (g *gen) embedTag(name string, bare bool, fallbackPrefix string) (tag strin
 	r := g.r
 	prefix := strings.ToLower(name) + "_"
 	switch x := r.Intn(12); {
-	case x < 2:
+	case x < 3:
 		prefix = ""
 		if !bare {
 			prefix = fallbackPrefix
 		}
 		g.feats["embedded:noprefix"] = true
-	case x < 4:
+	case x < 5:
 		prefix = core.Pick(r, []string{strings.ToLower(name) + "__", name + "__", "__" + strings.ToLower(name) + "_", "p__q__" + strings.ToLower(name)})
 		g.feats["embedded:prefix-double-underscore"] = true
 	}
@@ -660,6 +660,17 @@ func (g *gen) shadowColumn(all []reflect.StructField, spare []nameCol) []reflect
 	}
 	if len(cands) == 0 || len(spare) == 0 {
 		return all
+	}
+	// every second time one whose column is its plain name, if there is one: the outer field can then
+	// shadow it the Go way, by carrying the same Go name
+	var plain []*leaf
+	for _, l := range cands {
+		if _, taken := top[l.path[len(l.path)-1]]; !taken && l.col == snake(l.path[len(l.path)-1]) {
+			plain = append(plain, l)
+		}
+	}
+	if len(plain) > 0 && r.Bool() {
+		cands = plain
 	}
 	in := core.Pick(r, cands)
 	last := in.path[len(in.path)-1]
